@@ -66,8 +66,13 @@ def compute_pareto_optimal_points(
     if feasible_points is None:
         feasible_points = full(obj_values.shape[0], True)
 
-    def any_ax1_all(arr):
-        return np_all(np_any(arr, axis=1))
+    def are_worse_or_equal(other_obj_values, obj):
+        # A point with the same objective values does not dominate the point:
+        # duplicated points are all Pareto optimal (or all dominated).
+        return np_all(
+            np_any(other_obj_values > obj, axis=1)
+            | np_all(other_obj_values == obj, axis=1)
+        )
 
     # Store the feasible indexes
     feasible_indexes = []
@@ -81,8 +86,8 @@ def compute_pareto_optimal_points(
     obj_values_filtered = obj_values[feasible_indexes, :]
     for i, feasible_index in enumerate(feasible_indexes):
         obj = obj_values[feasible_index]
-        before_are_worse = any_ax1_all(obj_values_filtered[:i] > obj)
-        after_are_worse = any_ax1_all(obj_values_filtered[i + 1 :] > obj)
+        before_are_worse = are_worse_or_equal(obj_values_filtered[:i], obj)
+        after_are_worse = are_worse_or_equal(obj_values_filtered[i + 1 :], obj)
         pareto_optimal[feasible_index] = before_are_worse and after_are_worse
 
     return pareto_optimal
